@@ -5,6 +5,8 @@
 //@typemap /\bmsm::<E>\(/ => msm_(
 //@typemap /interpolate_poly::<E>\(/ => interpolate_poly(
 //@typemap /E::ScalarField::/ => Fr::
+//@typemap /\bE::G1::/ => G1::
+//@typemap /\bE::G2::/ => G2::
 //@typemap /<E::G2 as VariableBaseMSM>::/ => G2::
 //@typemap /<E::G1 as VariableBaseMSM>::/ => G1::
 //@typemap /DensePolynomial::from_coefficients_vec/ => Poly::from_coefficients_vec
@@ -28,7 +30,7 @@ pub mod streaming_kzg {
     // prod_{t < k} (x - pts[t])
     pub open spec fn vprod(pts: Seq<Fr>, k: nat, x: FS) -> FS decreases k { if k == 0 { f_one() } else { f_mul(vprod(pts, (k - 1) as nat, x), f_sub(x, pts[k - 1]@)) } }
     // vanishing_polynomial (map + fold over naive_mul): the polynomial prod_j (X - point_j)   [assumed: the fold is outside the extractable subset]
-    #[verifier::external_body] pub fn vanishing_polynomial(points: &[Fr]) -> (r: Poly) ensures forall|x: FS| #[trigger] r.ev(x) == vprod(points@, points@.len(), x) { unimplemented!() }
+    #[verifier::external_body] pub fn vanishing_polynomial(points: &[Fr]) -> (r: Poly) ensures forall|x: FS| #[trigger] r.ev(x) == vprod(points@, points@.len(), x), r.wf(), r.coeffs@.len() == points@.len() + 1 { unimplemented!() }
     // linear_combination (zip + map + reduce): coefficient-wise sum_i c_i * p_i over the shorter of the two lists; None if that is empty   [assumed]
     pub open spec fn cf(p: Seq<Fr>, t: int) -> FS { if 0 <= t < p.len() { p[t]@ } else { f_zero() } }
     pub open spec fn lc_cf(ps: Seq<Vec<Fr>>, cs: Seq<Fr>, k: nat, t: int) -> FS decreases k { if k == 0 { f_zero() } else { f_add(lc_cf(ps, cs, (k - 1) as nat, t), f_mul(cf(ps[k - 1]@, t), cs[k - 1]@)) } }
@@ -160,4 +162,80 @@ pub mod streaming_kzg {
             }
 //@end
     }
+
+    // ======================= the time-efficient MULTI-POINT prover (time.rs) =======================
+//@struct file=poly-commit/src/streaming_kzg/time.rs name=CommitterKey
+    // DensePolynomial::from_coefficients_slice: same contract as from_coefficients_vec on a copy of the slice   [assumed]
+    #[verifier::external_body] pub fn poly_from_slice(v: &[Fr]) -> (r: Poly)
+        ensures r.wf(), r.coeffs@.len() <= v@.len(), r.coeffs@ == v@.subrange(0, r.coeffs@.len() as int),
+                forall|i: int| r.coeffs@.len() <= i < v@.len() ==> (#[trigger] v@[i])@ == f_zero() { unimplemented!() }
+    // WHAT the multi-point prover returns: the commitment to the Euclidean quotient q of the polynomial by the vanishing polynomial
+    // Z = prod_j (X - point_j):   f(X) = q(X) Z(X) + r(X)  with  deg r < number of points
+    pub open spec fn tmp_rel(ck: &CommitterKey, f: Seq<Fr>, pts: Seq<Fr>, res_v: FS, q: Poly, r: Seq<FS>) -> bool {
+        res_v == msm(ck.powers_of_g@, q.cv(), min(ck.powers_of_g@.len(), q.len()))
+        && r.len() <= pts.len()
+        && forall|x: FS| peval(fviews(f), x, f.len()) == f_add(f_mul(#[trigger] q.ev(x), vprod(pts, pts.len(), x)), peval(r, x, r.len()))
+    }
+    pub open spec fn tmp_post(ck: &CommitterKey, f: Seq<Fr>, pts: Seq<Fr>, res: &EvaluationProof) -> bool { exists|q: Poly, r: Seq<FS>| #[trigger] tmp_rel(ck, f, pts, res.0@, q, r) }
+    pub proof fn lemma_from_slice_ev(p: &Poly, v: Seq<Fr>, x: FS)
+        requires p.coeffs@.len() <= v.len(), p.coeffs@ == v.subrange(0, p.coeffs@.len() as int), forall|i: int| p.coeffs@.len() <= i < v.len() ==> (#[trigger] v[i])@ == f_zero()
+        ensures p.ev(x) == peval(fviews(v), x, v.len())
+    { lemma_peval_trailing_zeros(fviews(v), x, p.len(), v.len()); lemma_peval_ext(fviews(v), p.cv(), x, p.len()); }
+    impl CommitterKey {
+//@stub from=streaming.rs id=streaming.time.commit vis=pub
+//@fn id=streaming.time.open_multi_points file=poly-commit/src/streaming_kzg/time.rs scope="impl<E: Pairing> CommitterKey<E>" name=open_multi_points props=C14,C01
+        pub fn open_multi_points(&self, polynomial: &[Fr], eval_points: &[Fr]) -> (res: EvaluationProof)
+        ensures
+            tmp_post(self, polynomial@, eval_points@, &res),   // name=streaming.time.open_multi_points.proof_commits_to_the_quotient_by_the_vanishing_polynomial props=C14,C01
+//@body
+//@rw 1 /DensePolynomial::from_coefficients_slice\(polynomial\)/ => poly_from_slice(polynomial)
+//@rw * /\b(z_poly|f_poly|q_poly)\.len\(\)/ => \1.coeffs.len()
+//@rw 1 /EvaluationProof\(self\.commit\(&q_poly\.coeffs\)\.0\)/ => let res__ = EvaluationProof(self.commit(q_poly.coeffs.as_slice()).0); proof { assert(tmp_rel(self, polynomial@, eval_points@, res__.0@, q_poly, rr)); } res__
+//@after /let f_poly =/
+            let ghost f0 = f_poly;
+            proof { assert forall|x: FS| f0.ev(x) == peval(fviews(polynomial@), x, polynomial@.len()) by { lemma_from_slice_ev(&f0, polynomial@, x); } }
+//@after /let q_poly =/
+            let ghost rr = choose|r: Seq<FS>| #[trigger] euclid(&f0, &z_poly, &q_poly, r);
+            proof {
+                assert(euclid(&f0, &z_poly, &q_poly, rr));
+                assert forall|x: FS| peval(fviews(polynomial@), x, polynomial@.len()) == f_add(f_mul(#[trigger] q_poly.ev(x), vprod(eval_points@, eval_points@.len(), x)), peval(rr, x, rr.len())) by {
+                    assert(f0.ev(x) == f_add(f_mul(q_poly.ev(x), z_poly.ev(x)), peval(rr, x, rr.len())));
+                }
+                assert(tmp_rel(self, polynomial@, eval_points@, msm(self.powers_of_g@, q_poly.cv(), min(self.powers_of_g@.len(), q_poly.len())), q_poly, rr));
+            }
+//@end
+//@fn id=streaming.time.batch_open_multi_points file=poly-commit/src/streaming_kzg/time.rs scope="impl<E: Pairing> CommitterKey<E>" name=batch_open_multi_points props=C14,C01,C05
+        pub fn batch_open_multi_points(&self, polynomials: &[Vec<Fr>], eval_points: &[Fr], eval_chal: &Fr) -> (res: EvaluationProof)
+        requires
+            self.powers_of_g2@.len() <= usize::MAX,
+        ensures
+            // the batch proof is the multi-point proof of the eta-weighted coefficient-wise sum  sum_i eta^i f_i  (the zero polynomial for an empty batch)
+            exists|bp: Seq<Fr>| #[trigger] tbm_rel(self, polynomials@, eval_points@, eval_chal@, &res, bp),   // name=streaming.time.batch_open_multi_points.opens_the_eta_weighted_sum props=C14,C01,C05
+            eval_points@.len() < self.powers_of_g2@.len(),   // name=streaming.time.batch_open_multi_points.more_points_than_g2_powers_aborts props=C14,C17
+//@body
+//@rw 1 /linear_combination\(polynomials, &etas\)\.unwrap_or_else\(\|\| vec!\[E::ScalarField::zero\(\)\]\)/ => opt_vec_or_zero1(linear_combination(polynomials, etas.as_slice()))
+//@rw 1 /self\.open_multi_points\(&batched_polynomial, eval_points\)/ => let res__ = self.open_multi_points(batched_polynomial.as_slice(), eval_points); proof { assert(tbm_rel(self, polynomials@, eval_points@, eval_chal@, &res__, batched_polynomial@)); } res__
+//@before /self\.open_multi_points\(/
+            proof {
+                let bp = batched_polynomial@; let n = polynomials@.len();
+                assert(etas@.len() == n);
+                assert forall|t: int| #[trigger] cf(bp, t) == lc_cf(polynomials@, pow_seq(eval_chal@, n), n, t) by {
+                    lemma_lc_cf_ext(polynomials@, etas@, pow_seq(eval_chal@, n), n, t);
+                    if n == 0 { }
+                }
+            }
+//@end
+    }
+    pub open spec fn tbm_rel(ck: &CommitterKey, ps: Seq<Vec<Fr>>, pts: Seq<Fr>, eta: FS, res: &EvaluationProof, bp: Seq<Fr>) -> bool {
+        tmp_post(ck, bp, pts, res) && (forall|t: int| #[trigger] cf(bp, t) == lc_cf(ps, pow_seq(eta, ps.len()), ps.len(), t))
+    }
+    // `opt.unwrap_or_else(|| vec![zero])`
+    #[verifier::external_body] pub fn opt_vec_or_zero1(o: Option<Vec<Fr>>) -> (r: Vec<Fr>)
+        ensures o is Some ==> r == o->Some_0, o is None ==> (r@.len() == 1 && r@[0]@ == f_zero()) { unimplemented!() }
+    pub open spec fn pow_seq(x: FS, n: nat) -> Seq<Fr> { Seq::new(n, |i: int| Fr::mk(f_pow(x, i as nat))) }
+    pub proof fn lemma_lc_cf_ext(ps: Seq<Vec<Fr>>, a: Seq<Fr>, b: Seq<Fr>, k: nat, t: int)
+        requires k <= a.len(), k <= b.len(), forall|i: int| 0 <= i < k ==> (#[trigger] a[i])@ == b[i]@
+        ensures lc_cf(ps, a, k, t) == lc_cf(ps, b, k, t)
+        decreases k
+    { if k > 0 { lemma_lc_cf_ext(ps, a, b, (k - 1) as nat, t); } }
 }
